@@ -9,83 +9,83 @@ import Babylon.Topic.Basic
 namespace Babylon.Topic
 open Babylon.Core Babylon.Gen.Topic
 
-inductive UStep (c : Cfg) (s : State) : Nat → State → Prop
+inductive UStep (c : Cfg) (s : State) : State → Nat → Prop
   | pAdd (t n : Nat) (hp : s.pc t = .pAdd n) :
-      UStep c s t { s with next := s.next + n, cap := reserveTo c s.cap (s.next + n),
+      UStep c s { s with next := s.next + n, cap := reserveTo c s.cap (s.next + n),
                          claims := fun k => s.claims k + (if inRange s.next (s.next + n) k then 1 else 0),
                          own := fun k => if inRange s.next (s.next + n) k then some t else s.own k,
-                         pc := upd s.pc t (startPieces s.next (s.next + n)) }
+                         pc := upd s.pc t (startPieces s.next (s.next + n)) } t
   | pFill (t b e : Nat) (vals : List Nat) (hp : s.pc t = .pFill b e) (hl : vals.length = pieceEnd c b e - b) :
-      UStep c s t { s with val := fillVals s.val b vals, item := fillVals s.item b vals,
+      UStep c s { s with val := fillVals s.val b vals, item := fillVals s.item b vals,
                          filled := fun k => inRange b (pieceEnd c b e) k || s.filled k,
                          hb := s.hb.fill t b (pieceEnd c b e - b),
-                         pc := upd s.pc t (.pRel b (pieceEnd c b e) e) }
+                         pc := upd s.pc t (.pRel b (pieceEnd c b e) e) } t
   | pRel (t b pe e : Nat) (hp : s.pc t = .pRel b pe e) :
-      UStep c s t { s with hb := s.hb.fence t ordPubFence, pc := upd s.pc t (.wSt stPublished b pe e b) }
+      UStep c s { s with hb := s.hb.fence t ordPubFence, pc := upd s.pc t (.wSt stPublished b pe e b) } t
   | wSt (t st b pe e j : Nat) (hp : s.pc t = .wSt st b pe e j) :
-      UStep c s t { s with word := upd s.word j (store16 (s.word j) st), hb := s.hb.store t j (storeOrd st),
-                         pc := upd s.pc t (nextStore st b pe e j) }
+      UStep c s { s with word := upd s.word j (store16 (s.word j) st), hb := s.hb.store t j (storeOrd st),
+                         pc := upd s.pc t (nextStore st b pe e j) } t
   | wSc (t st b pe e : Nat) (hp : s.pc t = .wSc st b pe e) :
-      UStep c s t { s with hb := s.hb.fence t (scOrd st), pc := upd s.pc t (.wLd st b pe e b) }
+      UStep c s { s with hb := s.hb.fence t (scOrd st), pc := upd s.pc t (.wLd st b pe e b) } t
   | wLd (t st b pe e j : Nat) (hp : s.pc t = .wLd st b pe e j) :
-      UStep c s t { s with hb := s.hb.load t j ordWakeLoad,
-                         pc := upd s.pc t (if s.word j ≤ noWaiterMax then nextWake st b pe e j else .wCas st b pe e j (s.word j)) }
+      UStep c s { s with hb := s.hb.load t j ordWakeLoad,
+                         pc := upd s.pc t (if s.word j ≤ noWaiterMax then nextWake st b pe e j else .wCas st b pe e j (s.word j)) } t
   | wCasOk (t st b pe e j v : Nat) (hp : s.pc t = .wCas st b pe e j v) (hv : s.word j = v) :
-      UStep c s t { s with word := upd s.word j (status v), hb := s.hb.rmw t j ordWakeCasSucc,
-                         pc := upd s.pc t (.wWake st b pe e j) }
+      UStep c s { s with word := upd s.word j (status v), hb := s.hb.rmw t j ordWakeCasSucc,
+                         pc := upd s.pc t (.wWake st b pe e j) } t
   | wCasFail (t st b pe e j v : Nat) (hp : s.pc t = .wCas st b pe e j v) :
-      UStep c s t { s with hb := s.hb.load t j ordWakeCasFail, pc := upd s.pc t (.wWake st b pe e j) }
+      UStep c s { s with hb := s.hb.load t j ordWakeCasFail, pc := upd s.pc t (.wWake st b pe e j) } t
   | wWake (t st b pe e j : Nat) (hp : s.pc t = .wWake st b pe e j) :
-      UStep c s t { s with pc := upd (wakeAll s.pc j) t (nextWake st b pe e j) }
+      UStep c s { s with pc := upd (wakeAll s.pc j) t (nextWake st b pe e j) } t
   | cLd (t : Nat) (hp : s.pc t = .cLd) :
-      UStep c s t { s with cap := ensureTo c s.cap s.next,
-                         pc := upd s.pc t (.wSt stClosed s.next (s.next + 1) (s.next + 1) s.next) }
+      UStep c s { s with cap := ensureTo c s.cap s.next,
+                         pc := upd s.pc t (.wSt stClosed s.next (s.next + 1) (s.next + 1) s.next) } t
   | kClosed (t b e j : Nat) (hp : s.pc t = .kClosed b e j) :
-      UStep c s t { s with hb := s.hb.load t j ordIsClosed,
-                         pc := upd s.pc t (if status (s.word j) = stClosed then .kAcq b e (j - b) else .kPub b e j) }
+      UStep c s { s with hb := s.hb.load t j ordIsClosed,
+                         pc := upd s.pc t (if status (s.word j) = stClosed then .kAcq b e (j - b) else .kPub b e j) } t
   | kPub (t b e j : Nat) (hp : s.pc t = .kPub b e j) :
-      UStep c s t { s with hb := s.hb.load t j ordIsPublished,
-                         pc := upd s.pc t (if status (s.word j) = stPublished then kLoop b e (j + 1) else .kWait b e j) }
+      UStep c s { s with hb := s.hb.load t j ordIsPublished,
+                         pc := upd s.pc t (if status (s.word j) = stPublished then kLoop b e (j + 1) else .kWait b e j) } t
   | kWait (t b e j : Nat) (hp : s.pc t = .kWait b e j) :
-      UStep c s t { s with hb := s.hb.load t j ordWaitLoad,
-                         pc := upd s.pc t (if status (s.word j) ≠ stInitial then kLoop b e j else waitSlow b e j (s.word j)) }
+      UStep c s { s with hb := s.hb.load t j ordWaitLoad,
+                         pc := upd s.pc t (if status (s.word j) ≠ stInitial then kLoop b e j else waitSlow b e j (s.word j)) } t
   | kCasOk (t b e j v : Nat) (hp : s.pc t = .kCas b e j v) (hv : s.word j = v) :
-      UStep c s t { s with word := upd s.word j (v + waiterUnit), hb := s.hb.rmw t j ordWaitCasSucc,
-                         pc := upd s.pc t (.kFwait b e j (v + waiterUnit)) }
+      UStep c s { s with word := upd s.word j (v + waiterUnit), hb := s.hb.rmw t j ordWaitCasSucc,
+                         pc := upd s.pc t (.kFwait b e j (v + waiterUnit)) } t
   | kCasFail (t b e j v : Nat) (hp : s.pc t = .kCas b e j v) :
-      UStep c s t { s with hb := s.hb.load t j ordWaitCasFail, pc := upd s.pc t (.kReload b e j) }
+      UStep c s { s with hb := s.hb.load t j ordWaitCasFail, pc := upd s.pc t (.kReload b e j) } t
   | kFwaitSleep (t b e j v : Nat) (hp : s.pc t = .kFwait b e j v) (hv : s.word j = v) :
-      UStep c s t { s with pc := upd s.pc t (.kSleep b e j) }
+      UStep c s { s with pc := upd s.pc t (.kSleep b e j) } t
   | kFwaitAgain (t b e j v : Nat) (hp : s.pc t = .kFwait b e j v) (hv : s.word j ≠ v) :
-      UStep c s t { s with pc := upd s.pc t (.kReload b e j) }
+      UStep c s { s with pc := upd s.pc t (.kReload b e j) } t
   | kWoke (t b e j : Nat) (hp : s.pc t = .kWoke b e j) :
-      UStep c s t { s with pc := upd s.pc t (.kReload b e j) }
+      UStep c s { s with pc := upd s.pc t (.kReload b e j) } t
   | kReload (t b e j : Nat) (hp : s.pc t = .kReload b e j) :
-      UStep c s t { s with hb := s.hb.load t j ordWaitReload,
-                         pc := upd s.pc t (if status (s.word j) = stInitial then waitSlow b e j (s.word j) else kLoop b e j) }
+      UStep c s { s with hb := s.hb.load t j ordWaitReload,
+                         pc := upd s.pc t (if status (s.word j) = stInitial then waitSlow b e j (s.word j) else kLoop b e j) } t
   | kAcq (t b e m : Nat) (hp : s.pc t = .kAcq b e m) :
-      UStep c s t { s with cur := upd s.cur t (b + m), hb := s.hb.fence t ordAcqFence, pc := upd s.pc t (.kRet b e m) }
+      UStep c s { s with cur := upd s.cur t (b + m), hb := s.hb.fence t ordAcqFence, pc := upd s.pc t (.kRet b e m) } t
   | rSt (t j : Nat) (hp : s.pc t = .rSt j) :
-      UStep c s t { s with word := upd s.word j stInitial, pc := upd s.pc t (if j + 1 < s.cap then .rSt (j + 1) else .rNext) }
+      UStep c s { s with word := upd s.word j stInitial, pc := upd s.pc t (if j + 1 < s.cap then .rSt (j + 1) else .rNext) } t
   | rNext (t : Nat) (hp : s.pc t = .rNext) :
-      UStep c s t { State.fresh s.val s.cap s.item with word := s.word }
+      UStep c s { State.fresh s.val s.cap s.item with word := s.word } t
   | publish (t n : Nat) (hp : s.pc t = .idle) (hc : s.closed = false) (hk : s.clearing = false) :
-      UStep c s t { s with pc := upd s.pc t (.pAdd n) }
+      UStep c s { s with pc := upd s.pc t (.pAdd n) } t
   | close (t : Nat) (hp : s.pc t = .idle) (hk : s.clearing = false) (hq : ∀ u, (s.pc u).publishing = false) :
-      UStep c s t { s with closed := true, pc := upd s.pc t .cLd }
+      UStep c s { s with closed := true, pc := upd s.pc t .cLd } t
   | consume (t n : Nat) (hp : s.pc t = .idle) (hk : s.clearing = false) :
-      UStep c s t { s with cap := reserveTo c s.cap (s.cur t + n), pc := upd s.pc t (kLoop (s.cur t) (s.cur t + n) (s.cur t)) }
+      UStep c s { s with cap := reserveTo c s.cap (s.cur t + n), pc := upd s.pc t (kLoop (s.cur t) (s.cur t + n) (s.cur t)) } t
   | subscribe (t : Nat) (hp : s.pc t = .idle) (hk : s.clearing = false) :
-      UStep c s t { s with cur := upd s.cur t 0, got := upd s.got t [] }
+      UStep c s { s with cur := upd s.cur t 0, got := upd s.got t [] } t
   | ret (t b e m : Nat) (hp : s.pc t = .kRet b e m) :
-      UStep c s t { s with got := upd s.got t (s.got t ++ readRange s b m), pc := upd s.pc t .idle }
+      UStep c s { s with got := upd s.got t (s.got t ++ readRange s b m), pc := upd s.pc t .idle } t
   | clear (t : Nat) (hk : s.clearing = false) (hq : ∀ u, s.pc u = .idle) :
-      UStep c s t { s with clearing := true, pc := upd s.pc t (if 0 < s.cap then .rSt 0 else .rNext) }
+      UStep c s { s with clearing := true, pc := upd s.pc t (if 0 < s.cap then .rSt 0 else .rNext) } t
   | spuriousWake (t b e j : Nat) (hp : s.pc t = .kSleep b e j) :
-      UStep c s t { s with pc := upd s.pc t (.kWoke b e j) }
+      UStep c s { s with pc := upd s.pc t (.kWoke b e j) } t
 
 theorem ustep_of_thread {c : Cfg} {s s' : State} {t : Nat} {i : Inp} {l : Act}
-    (h : stepThread c s t i = some (s', l)) : UStep c s t s' := by
+    (h : stepThread c s t i = some (s', l)) : UStep c s s' t := by
   unfold stepThread at h
   split at h
   all_goals try (cases h; done)
@@ -122,7 +122,7 @@ theorem ustep_of_thread {c : Cfg} {s s' : State} {t : Nat} {i : Inp} {l : Act}
   · rename_i j hp; obtain ⟨h1, -⟩ := Prod.mk.inj (Option.some.inj h); subst h1; exact UStep.rSt t j hp
   · rename_i hp; obtain ⟨h1, -⟩ := Prod.mk.inj (Option.some.inj h); subst h1; exact UStep.rNext t hp
 
-theorem ustep_of_step {c : Cfg} {s s' : State} (h : Step c s s') : ∃ a, UStep c s a s' := by
+theorem ustep_of_step {c : Cfg} {s s' : State} (h : Step c s s') : ∃ a, UStep c s s' a := by
   cases h with
   | act t i s' l h => exact ⟨t, ustep_of_thread h⟩
   | publish t n hp hc hk => exact ⟨t, UStep.publish t n hp hc hk⟩
